@@ -1847,7 +1847,7 @@ func (g *FnGen) heapClosed(st *State, key string) {
 		g.emit(fmt.Sprintf("(assert (forall ((r Int)) (! (and (<= 0 (select %s r)) (<= (select %s r) %s)) :pattern ((select %s r)))))", h, h, a, h))
 	case *types.Slice:
 		ss := g.w.sortOf(u)
-		g.emit(fmt.Sprintf("(assert (forall ((r Int)) (! (and (<= 0 (arr_%s (select %s r))) (<= (arr_%s (select %s r)) %s) (<= 0 (len_%s (select %s r))) (<= 0 (off_%s (select %s r)))) :pattern ((select %s r)))))", ss, h, ss, h, a, ss, h, ss, h, h))
+		g.emit(fmt.Sprintf("(assert (forall ((r Int)) (! (and (<= 0 (arr_%s (select %s r))) (<= (arr_%s (select %s r)) %s) (<= 0 (len_%s (select %s r))) (<= (len_%s (select %s r)) 72057594037927936) (<= 0 (off_%s (select %s r)))) :pattern ((select %s r)))))", ss, h, ss, h, a, ss, h, ss, h, ss, h, h))
 	}
 }
 
